@@ -2,6 +2,8 @@ package main
 
 import (
 	"fmt"
+	"os"
+	"time"
 	"strings"
 
 	"golang.org/x/tools/go/ssa"
@@ -77,4 +79,13 @@ func dumpEffects(p *Prog, pat string) {
 			}
 		}
 	}
+}
+
+
+func timing(name string) func() {
+	if os.Getenv("RAFTLINT_TIMING") == "" {
+		return func() {}
+	}
+	t0 := time.Now()
+	return func() { fmt.Fprintf(os.Stderr, "  %s: %.2fs\n", name, time.Since(t0).Seconds()) }
 }
